@@ -53,6 +53,31 @@ func genC07(r *Rng, tier string, idx int) *Plan {
 		n = r.Range(4, 40)
 	}
 	uniq := 0
+	if idx%8 == 5 {
+		// expiry in lockstep: a key with an absolute deadline is replicated and applied by every node, the deadline
+		// passes on the (shared) clock, the key is collected through the log - raised by a read on the leader or by
+		// the rewrite itself - and rewritten at once. Every node is at the same log position and reads the same
+		// clock when the deadline passes, so the recorded divergences of expiry at apply time cannot occur: the
+		// rewrite is acknowledged, read back, and on every replica.
+		p.Profile = "expiry"
+		p.Knobs["drop"], p.Knobs["dup"] = 0, 0
+		for round, rounds := 0, r.Range(1, 3); round < rounds; round++ {
+			k := g.key(r)
+			for i, n := 0, r.Intn(3); i < n; i++ {
+				p.Ops = append(p.Ops, Op{C: 0, Args: g.Cmd(r), S: "leader-relative"})
+			}
+			uniq++
+			p.Ops = append(p.Ops, Op{Kind: "expiring", Args: []string{"SET", k, fmt.Sprintf("old%d", uniq)}, N: int64(r.Range(20, 400))})
+			p.Ops = append(p.Ops, Op{Kind: "drain"})
+			p.Ops = append(p.Ops, Op{Kind: "advance", N: int64(Pick(r, []int{500, 1000, 7000}))})
+			uniq++
+			v := fmt.Sprintf("u%d", uniq)
+			rw := Pick(r, [][]string{{"SET", k, v}, {"SET", k, v}, {"HSET", k, "f", v}, {"RPUSH", k, v}, {"SADD", k, v}, {"MSET", k, v, "other", "x"}})
+			p.Ops = append(p.Ops, Op{Kind: "expired-rewrite", Args: rw, N: int64(r.Intn(3))})
+		}
+		p.Dice = drawDice(r, 512)
+		return p
+	}
 	if idx%4 == 3 {
 		// snapshot/restore sub-profile: writes (with deadlines), a raft snapshot on a follower, its crash, more writes, restart
 		p.Profile = "snaprestore"
@@ -215,6 +240,15 @@ func (a *c07Run) run(cl *Client, args []string, budget int) (Result, bool) {
 				break
 			}
 			// nothing runnable: the command waits for something that will never come
+			a.s.Advance(5 * time.Second)
+			a.s.Settle()
+			if done {
+				break
+			}
+			if len(a.s.ParkedTasks()) > 0 {
+				continue
+			}
+			a.s.HeldAcrossWait()
 			return res, false
 		}
 		if a.spinning(parked) {
@@ -245,6 +279,69 @@ func (a *c07Run) spinning(parked []*Task) bool {
 		}
 	}
 	return false
+}
+
+// expiredRewrite (profile expiry): the key named by op.Args[1] carried a deadline that has passed on every node.
+func (a *c07Run) expiredRewrite(i int, op Op) {
+	l := a.leaderIdx()
+	if l < 0 || len(op.Args) < 3 {
+		return
+	}
+	k := op.Args[1]
+	db := strconv.FormatInt(a.p.K("db"+strconv.Itoa(l)), 10)
+	for j := 0; j < a.nodes; j++ {
+		if a.alive[j] && a.c.nodes[nodeID(j)].applied != a.c.nodes[nodeID(l)].applied {
+			return // not in lockstep (a node is behind): the recorded expiry findings apply, not this check
+		}
+	}
+	if e, ok := a.insts[l].DB.VerifDump().DBs[int(a.p.K("db"+strconv.Itoa(l)))][k]; ok && (e.ExpireAt == 0 || e.ExpireAt > nowMs()) {
+		return // shrunk plans: the key carries no passed deadline
+	}
+	logBefore := len(a.c.log)
+	if op.N > 0 {
+		// a read on the leader finds the key expired and has it collected through the log
+		a.names = append(a.names, "GET-expired@L")
+		if g, done := a.run(a.clients[l], []string{ifs(op.N == 1, "EXISTS", "MGET"), k}, 1500); !done {
+			a.fail("command-hangs/leader", fmt.Sprintf("op %d: a read of the expired key %s on the leader was never answered", i, k))
+			return
+		} else if g.Panic != "" {
+			a.fail("panic/"+topRepoFrame(g.Panic), g.Panic)
+			return
+		}
+	}
+	a.names = append(a.names, strings.ToUpper(op.Args[0])+"-after-expiry@L")
+	res, done := a.run(a.clients[l], op.Args, 1500)
+	if !done {
+		a.fail("command-hangs/leader", fmt.Sprintf("op %d %q (rewrite of the expired key) on the leader was never answered", i, op.Args))
+		return
+	}
+	if res.IsError() {
+		a.fail("expired-key-blocks-write", fmt.Sprintf("op %d %q on the leader after the key's deadline passed: %s", i, op.Args, res))
+		return
+	}
+	if !a.drain() {
+		if a.o.Sig == "" {
+			a.fail("liveness/no-quiescence", "replication does not quiesce")
+		}
+		return
+	}
+	a.checkPanics()
+	if a.o.Sig != "" {
+		return
+	}
+	// acknowledged, everything delivered and applied: every replica holds the rewritten key
+	for j := 0; j < a.nodes; j++ {
+		if !a.alive[j] {
+			continue
+		}
+		m := DataMap(a.insts[j].DB.VerifDump(), false)
+		v, ok := m[db+"/"+k]
+		if !ok || strings.Contains(v, "old") {
+			a.fail("acked-write-missing/after-expiry", fmt.Sprintf("op %d: %q was acknowledged by the leader after the deadline of %s had passed on every node (all at the same log position); after a drain node %s holds %s=%q; log since: %v",
+				i, op.Args, k, nodeID(j), k, v, trimCmds(a.logCommands()[logBefore:])))
+			return
+		}
+	}
 }
 
 func (a *c07Run) steps(n int) {
@@ -328,6 +425,9 @@ func runC07(t *testing.T, p *Plan) *Outcome {
 		a.c = s.NewCluster(a.dice)
 		// only the replication layer's tasks are scheduling choices; commands themselves run through
 		s.siteFilter = func(site string) bool {
+			if p.Profile == "expiry" && (site == "lock.store" || site == "rlock.store") {
+				return true // collection of expired keys and the writes that follow meet at the store lock
+			}
 			return strings.HasPrefix(site, "raft.") || strings.HasPrefix(site, "start:")
 		}
 		if Avoiding(p, "C07/forward/gossip-storm") {
@@ -461,6 +561,23 @@ func (a *c07Run) body() {
 			a.s.Advance(time.Duration(op.N) * time.Millisecond)
 		case "steps":
 			a.steps(int(op.N))
+		case "drain":
+			if !a.drain() && a.o.Sig == "" {
+				a.fail("liveness/no-quiescence", "replication does not quiesce")
+			}
+		case "expiring":
+			// an absolute deadline N ms from now, kept as it is (exploration otherwise moves deadlines out of reach)
+			l := a.leaderIdx()
+			if l < 0 || len(op.Args) != 3 {
+				break
+			}
+			args := append(append([]string{}, op.Args...), "PXAT", strconv.FormatInt(nowMs()+op.N, 10))
+			a.names = append(a.names, "SET-PXAT@L")
+			if res, done := a.run(a.clients[l], args, 1500); !done || res.IsError() {
+				a.fail("command-hangs/leader", fmt.Sprintf("op %d %q on the leader: done=%v reply=%s", i, args, done, res))
+			}
+		case "expired-rewrite":
+			a.expiredRewrite(i, op)
 		}
 		a.checkPanics()
 		a.noteExpired()
